@@ -492,7 +492,7 @@ Section Glue.
   Theorem KInv_cexec : forall progsF k a,
     KInv progsF k -> exists k' progsF', CEXEC k a = Ok k' /\ KInv progsF' k'.
   Proof.
-    intros progsF k [a | a] HK; cbn [cexec].
+    intros progsF k [a | a | tr] HK; cbn [cexec].
     - (* a step of queue W *)
       destruct ((match a with ARun _ _ => w_at_idle (k_W k) (act_thread a) | ASpurious _ => false end)
                 && negb (f_idle (k_F k) (act_thread a))).
@@ -530,13 +530,13 @@ Section Glue.
       { intros t0 id w Hi. destruct (kow _ _ HK t0 id w Hi) as (thW & HtW & HdW).
         destruct (Hmono t0 thW HtW) as (thW' & HtW' & Hsub). exists thW'. split; [exact HtW'|apply Hsub; exact HdW]. }
       (* without injection *)
-      assert (Hplain : KInv progsF (mkK g' (k_F k) (k_durable k))).
-      { constructor; cbn [k_W k_F k_durable]; unfold cW, cF; cbn [k_W k_F]; try assumption;
+      assert (Hplain : forall p r, KInv progsF (mkK g' (k_F k) (k_durable k) p r)).
+      { intros p r. constructor; cbn [k_W k_F k_durable]; unfold cW, cF; cbn [k_W k_F]; try assumption;
           try (destruct HK; assumption). rewrite Hlen'. exact (knt _ _ HK). }
       set (t := act_thread a).
-      destruct (nth_error (g_threads (k_W k)) t) as [th|] eqn:Hth; [|eexists; eexists; split; [reflexivity|exact Hplain]].
-      destruct (nth_error (g_threads g') t) as [th'|] eqn:Hth'; [|eexists; eexists; split; [reflexivity|exact Hplain]].
-      destruct (new_done th th') as [[idx [w|]]|] eqn:Hnd; try (eexists; eexists; split; [reflexivity|exact Hplain]).
+      destruct (nth_error (g_threads (k_W k)) t) as [th|] eqn:Hth; [|eexists; eexists; split; [reflexivity|exact (Hplain _ _)]].
+      destruct (nth_error (g_threads g') t) as [th'|] eqn:Hth'; [|eexists; eexists; split; [reflexivity|exact (Hplain _ _)]].
+      destruct (new_done th th') as [[idx [w|]]|] eqn:Hnd; try (eexists; eexists; split; [reflexivity|exact (Hplain _ _)]).
       (* the call with W index idx returned Ok(w): it becomes t's next input on F *)
       assert (Hin_done : In (idx, Some w) (t_done th')).
       { unfold new_done in Hnd. destruct (t_done th') as [|x r]; [discriminate|].
@@ -545,7 +545,7 @@ Section Glue.
       { rewrite (knt _ _ HK). apply nth_error_Some. rewrite Hth. discriminate. }
       destruct (nth_error (g_threads (k_F k)) t) as [thF|] eqn:HthF.
       2:{ apply nth_error_None in HthF. lia. }
-      exists (mkK g' (inject (k_F k) t (idx, w)) (k_durable k)), (progs_add progsF t (idx, w)).
+      exists (mkK g' (inject (k_F k) t (idx, w)) (k_durable k) (k_poison k) (k_refused k)), (progs_add progsF t (idx, w)).
       split; [reflexivity|].
       rewrite (inject_eq _ _ _ _ HthF).
       assert (HtlP : t < length progsF).
@@ -675,6 +675,10 @@ Section Glue.
             try (eapply PFl_snoc; [exact Hfl0| cbn [lf_out lf_sync]; rewrite ?Hfl; intros; try discriminate; auto | cbn [lf_out lf_sync]; rewrite ?Hfl; intros; try discriminate; auto]).
              ++ intros e He Ho id w Hi. apply in_app_or in He. destruct He as [He|[<-|[]]]; [eapply Hdn; eassumption|].
                 cbn [lf_out] in Ho. discriminate.
+    - (* a refused append: nothing but the ghost record changes *)
+      destruct (k_poison k); [|exists k, progsF; split; [reflexivity|exact HK]].
+      eexists. exists progsF. split; [reflexivity|].
+      destruct HK. constructor; cbn [k_W k_F k_durable]; unfold cW, cF in *; cbn [k_W k_F]; assumption.
   Qed.
 
   (* ---- every schedule *)
@@ -873,4 +877,132 @@ Section Glue.
     (forall pre e post, cf_log (cF k) = pre ++ e :: post -> lf_sync e = true ->
        Forall (fun y => lf_out y = true) pre).
   Proof. intros progsF k HK. exact (kfl _ _ HK). Qed.
+
+  (* ---- the poison flag: set only after some call was answered with an error, and an append is
+     refused only when it is set; a fault-free run refuses nothing *)
+  Definition PInv (k : kstate) : Prop :=
+    (k_refused k <> [] -> k_poison k = true) /\
+    (k_poison k = true ->
+       cf_failed (cF k) = true \/ Exists (fun e => lw_res e <> WOk) (cw_log (cW k))).
+
+  Lemma workW_log : forall cs n acc, exists e, cw_log (fst (workW cs n acc)) = cw_log cs ++ [e] /\
+    lw_out e = hd None (snd (workW cs (S n) acc)).
+  Proof.
+    intros cs n acc. unfold ModelConcWL.workW.
+    destruct (append bits crc rollover (cw_w cs) (accW_buffer acc)) as [r st']. cbn [fst snd cw_log].
+    eexists. split; [reflexivity|]. cbn [repeat hd]. reflexivity.
+  Qed.
+
+  Lemma execF_core : forall (g g' : ModelConcWL.gF) a, execF g a = Ok g' ->
+    g_core g' = g_core g \/ exists n acc, g_core g' = fst (workF (g_core g) n acc).
+  Proof.
+    intros g g' a H. destruct (exec_cases g g' a H) as
+      [-> | _ _ (_ & _ & _ & Hc) | t c th th' ths1 _ Hs Ht _ _ _ Hk]; [now left|left; exact Hc|].
+    destruct Hk as [(_ & _ & _ & Hc) _ _ | i idx _ _ _ Hc _ _
+                   | idx cur taken acc i _ _ _ _ _ _ Hc _ _ | idx taken acc Hpc _ _ _ Hc _ _].
+    - left. exact Hc.
+    - left. exact Hc.
+    - left. rewrite Hc. reflexivity.
+    - right. exists taken, acc. exact Hc.
+  Qed.
+
+  Lemma workF_failed_mono : forall cs n acc, cf_failed cs = true -> cf_failed (fst (workF cs n acc)) = true.
+  Proof.
+    intros cs n acc H. unfold workF. destruct (accval acc <=? cf_synced cs)%N; cbn [fst cf_failed]; [exact H|].
+    rewrite H. reflexivity.
+  Qed.
+
+  Lemma new_done_in : forall {I O A} (th th' : ModelWcq.thread I O A) x,
+    new_done th th' = Some x -> In x (t_done th').
+  Proof.
+    intros I O A th th' x H. unfold new_done in H. destruct (t_done th') as [|y r]; [discriminate|].
+    destruct (length r =? length (t_done th)); [|discriminate]. injection H as ->. now left.
+  Qed.
+
+  Theorem PInv_cexec : forall progsF k a k',
+    KInv progsF k -> PInv k -> CEXEC k a = Ok k' -> PInv k'.
+  Proof.
+    intros progsF k a k' HK [HP1 HP2] Hex.
+    destruct (KInv_cexec progsF k a HK) as (k2 & pF' & E2 & HK').
+    rewrite Hex in E2. injection E2 as <-.
+    destruct a as [a | a | tr]; cbn [cexec] in Hex.
+    - (* W *)
+      destruct ((match a with ARun _ _ => w_at_idle (k_W k) (act_thread a) | ASpurious _ => false end)
+                && negb (f_idle (k_F k) (act_thread a))).
+      { injection Hex as <-. split; assumption. }
+      unfold execW in Hex.
+      destruct (exec inpW outW accW cw [] (can_batchW bits) batchW workW (k_W k) a) as [g'| | |] eqn:Hx;
+        cbn [bind] in Hex; try discriminate.
+      assert (Hlogmono : Exists (fun e => lw_res e <> WOk) (cw_log (cW k)) ->
+                         Exists (fun e => lw_res e <> WOk) (cw_log (g_core g'))).
+      { intros Hexs. unfold cW in Hexs.
+        destruct (execW_core (k_W k) g' a (kiW _ _ HK) (kgW _ _ HK) Hx) as [E|(n & acc & E & _)]; rewrite E; [exact Hexs|].
+        destruct (workW_log (g_core (k_W k)) n acc) as (e & E2 & _). rewrite E2. apply Exists_app. now left. }
+      assert (Hold : forall f', cF {| k_W := g'; k_F := f'; k_durable := k_durable k; k_poison := k_poison k; k_refused := k_refused k |} = g_core f') by reflexivity.
+      set (t := act_thread a) in *.
+      destruct (nth_error (g_threads (k_W k)) t) as [th|] eqn:Hth;
+        [destruct (nth_error (g_threads g') t) as [th'|] eqn:Hth';
+           [destruct (new_done th th') as [[idx [w|]]|] eqn:Hnd|]|];
+        injection Hex as <-; unfold PInv, cW, cF; cbn [k_W k_F k_poison k_refused].
+      + split; [exact HP1|]. intros Hp. destruct (HP2 Hp) as [Hf|Hexs]; [left|right; apply Hlogmono; exact Hexs].
+        unfold inject. destruct (nth_error (g_threads (k_F k)) t); exact Hf.
+      + (* the call was answered Err: a work of the write core failed *)
+        split; [reflexivity|]. intros _. right.
+        assert (HI' : Inv progsW g').
+        { destruct (exec_safe (Inp:=inpW) (Outp:=outW) (Acc:=accW) (CS:=cw) (acc0:=[]) (can_batch:=can_batchW bits) (batch:=batchW) (work:=workW)
+                      progsW (workW_len bits crc rollover) (k_W k) a (kiW _ _ HK)) as (g2 & Hx2 & HI2).
+          rewrite Hx in Hx2. injection Hx2 as <-. exact HI2. }
+        pose proof (GIW_exec bits crc rollover progsW (k_W k) g' a (kiW _ _ HK) (kgW _ _ HK) Hx) as HG'.
+        destruct (done_in_log idW clogW progsW g' t th' idx None HI' HG' Hth' (new_done_in _ _ _ Hnd))
+          as (k0 & it & outs & Hk0 & _ & Ho).
+        unfold clogW in Hk0. destruct (clogWl_nth _ _ _ _ Hk0) as (e & He & _ & ->).
+        apply nth_error_repeat_some in Ho. apply Exists_exists. exists e. split; [eapply nth_error_In; exact He|].
+        unfold lw_out in Ho. destruct (lw_res e); discriminate.
+      + split; [exact HP1|]. intros Hp. destruct (HP2 Hp) as [Hf|Hexs]; [left; exact Hf|right; apply Hlogmono; exact Hexs].
+      + split; [exact HP1|]. intros Hp. destruct (HP2 Hp) as [Hf|Hexs]; [left; exact Hf|right; apply Hlogmono; exact Hexs].
+      + split; [exact HP1|]. intros Hp. destruct (HP2 Hp) as [Hf|Hexs]; [left; exact Hf|right; apply Hlogmono; exact Hexs].
+    - (* F *)
+      unfold execF in Hex.
+      destruct (exec inpF bool accF cf [] can_batchF batchF workF (k_F k) a) as [g'| | |] eqn:Hx;
+        cbn [bind] in Hex; try discriminate.
+      assert (Hfmono : cf_failed (cF k) = true -> cf_failed (g_core g') = true).
+      { intros Hf. destruct (execF_core (k_F k) g' a Hx) as [->|(n & acc & ->)]; [exact Hf|apply workF_failed_mono; exact Hf]. }
+      injection Hex as <-. unfold PInv, cW, cF in *; cbn [k_W k_F k_poison k_refused] in *.
+      assert (Hbase : k_poison k = true -> cf_failed (g_core g') = true \/
+                      Exists (fun e => lw_res e <> WOk) (cw_log (g_core (k_W k)))).
+      { intros Hp. destruct (HP2 Hp) as [Hf|Hexs]; [left; apply Hfmono; exact Hf|right; exact Hexs]. }
+      set (t := act_thread a) in *.
+      destruct (nth_error (g_threads (k_F k)) t) as [th|] eqn:Hth;
+        [destruct (nth_error (g_threads g') t) as [th'|] eqn:Hth';
+           [destruct (new_done th th') as [[j [|]]|] eqn:Hnd|]|];
+        try (split; [exact HP1|exact Hbase]).
+      (* fsync_cq.do_work returned false: a work of the fsync core answered false, so a sync failed *)
+      split; [intros _; reflexivity|]. intros _. left.
+      pose proof (kfl _ _ HK') as [Hall _]. unfold cF in Hall. cbn [k_F] in Hall.
+      destruct (cf_failed (g_core g')) eqn:Hf; [reflexivity|]. exfalso.
+      specialize (Hall eq_refl).
+      destruct (done_in_log idF clogF pF' g' t th' j false (kiF _ _ HK') (kgF _ _ HK') Hth' (new_done_in _ _ _ Hnd))
+        as (k0 & it & outs & Hk0 & _ & Ho).
+      unfold clogF in Hk0. destruct (clogFl_nth _ _ _ _ Hk0) as (e & He & _ & ->).
+      apply nth_error_repeat_some in Ho. rewrite Forall_forall in Hall.
+      specialize (Hall e (nth_error_In _ _ He)). congruence.
+    - (* refusal *)
+      destruct (k_poison k) eqn:Hp.
+      + injection Hex as <-. split; [reflexivity|]. intros _. apply HP2. reflexivity.
+      + injection Hex as <-. unfold PInv. rewrite Hp. split; assumption.
+  Qed.
+
+  Theorem reach_PInv : forall nW nF oracle sched k, 0 < nW -> 0 < nF ->
+    crun bits crc rollover (kinit nW nF oracle progsW) sched = Ok k -> PInv k.
+  Proof.
+    intros nW nF oracle sched k HnW HnF.
+    assert (H0 : PInv (kinit nW nF oracle progsW)).
+    { split; cbn; [intros H; contradiction|intros H; discriminate]. }
+    pose proof (KInv_init nW nF oracle HnW HnF) as HK0.
+    revert H0 HK0. generalize (kinit nW nF oracle progsW) (map (fun _ : list inpW => @nil inpF) progsW).
+    induction sched as [|a r IH]; intros k0 pF HP HK Hrun; cbn [crun] in Hrun.
+    - injection Hrun as <-. exact HP.
+    - destruct (KInv_cexec pF k0 a HK) as (k1 & p1 & E1 & HK1). rewrite E1 in Hrun. cbn [bind] in Hrun.
+      apply (IH k1 p1 (PInv_cexec pF k0 a k1 HK HP E1) HK1 Hrun).
+  Qed.
 End Glue.
